@@ -159,7 +159,9 @@ def run(ctx):
                 recs.append({'ev': 'centring', 'ucell': name, 'setting': st, 'patoms': patoms, 'batoms': batoms, 'basis': basis, 'dd': dd,
                              'ongrid': ok1 and ok2 and ok3 and ok4, 'pcell6': pcell6, 'npts': NP[st], 'gram': gram(ucell.box), 'bgram': gram(back.box),
                              'porg6': porg6, 'pproper': proper(T) and proper(T2), 'plammps': bool(prim.box.is_lammps_norm() and back.box.is_lammps_norm()),
-                             'binside': bool((brel > -1e-9).all() and (brel < 1 + 1e-9).all())})
+                             'binside': bool((brel > -1e-9).all() and (brel < 1 + 1e-9).all()),
+                             # "undo one another": the two returned rotations compose to the identity and the cell comes back as it was
+                             'undone': bool(np.allclose(np.asarray(T2) @ np.asarray(T), np.identity(3), atol=1e-9) and np.allclose(back.box.vects, ucell.box.vects, atol=1e-9))})
             except Exception as e:
                 ctx.violation('centring conversion [%s] raised %s' % (st, excname(e)), name + ' ' + repr(e)[:300], name)
     ctx.extra['documented_refusals_accepted'] = refus
